@@ -4,6 +4,7 @@ import (
 	"os"
 	"path/filepath"
 	"sync/atomic"
+	"verifsim/props"
 )
 
 var inRun atomic.Bool
@@ -13,3 +14,5 @@ var distinctOut *os.File
 func filepathGlob(p string) ([]string, error) { return filepath.Glob(p) }
 
 var leakedRuns int
+
+var refClient *props.RefClient
